@@ -86,6 +86,10 @@ def gen(rng, tier):
             yield c
             if rng.chance(0.15 if not full else 0.5):
                 yield dict(c, via="ref", _tag="conv-ref/" + t)
+            # integers that arrive as text assembled by variable expansion (two spliced halves, a resolver's answer) and
+            # are parsed again
+            if ("i" in v or "u" in v) and len(v.get("i", v.get("u"))) >= 2 and rng.chance(0.2 if not full else 0.6):
+                yield dict({k: x for k, x in c.items() if k != "ptr"}, via=rng.pick(["splice", "resolver"]), _tag="conv-splice/" + t)
     n = 300 if tier == "quick" else 6000
     for _ in range(n):
         v = F(rng.next()) if rng.chance(0.7) else (I(rng.next() - (1 << 63)) if rng.chance(0.5) else U(rng.next()))
